@@ -490,6 +490,13 @@ def run_query(args):
                 fails = [l for l in ra.stdout.split('\n') if ' fails=' in l and ' fails=0 ' not in l]
                 m = re.search(r'SWEEP completed=(\d+)', ra.stdout)
                 rec['native_probe'] = {'failing_runs': fails[:3], 'completed': int(m.group(1)) if m else 0, 'exe': exeA}
+                if fails:
+                    d = os.path.join(replaydir, q.slug())
+                    shutil.rmtree(d, ignore_errors=True)
+                    os.makedirs(d)
+                    shutil.copy(exeA, os.path.join(d, 'replay_real'))
+                    open(os.path.join(d, 'README'), 'w').write('native probe: SYMX_SWEEP=%s SYMX_SEED=%d ./replay_real\n%s\n' % (env['SYMX_SWEEP'], seed, fails[0]))
+                    rec['native_probe']['exe'] = d
         if q.expect == 'pass' and res['verdict'] == 'fail':
             # counterexample: replay against the real sources
             vals = None
